@@ -287,6 +287,10 @@ func (state *IntraAnalysisState) makeEdgesAtReturn(x *ssa.Return) {
 		switch r := result.(type) {
 		case *ssa.MakeClosure:
 			state.updateBoundVarEdges(x, r)
+		case *ssa.Global:
+			// Special case: the address of a global is returned directly
+			tmpSrc := state.flowInfo.GetNewMark(x, Global, r, NonIndexMark)
+			state.summary.addReturnEdge(MarkWithAccessPath{tmpSrc, ""}, nil, x, tupleIndex)
 		}
 
 		for _, origin := range state.getMarks(x, result, "", true) {
